@@ -8,7 +8,7 @@ a secret.  A report whose stack has a frame in <repo>/src is a violation, keyed 
 (entry, innermost library frame function).  Each job is also run natively (no valgrind)
 and the digests of the outputs must agree.
 """
-import os, re, sys, json, subprocess, fnmatch
+import os, re, sys, json, subprocess, fnmatch, zlib
 import xml.etree.ElementTree as ET
 from vrun import Job
 import vbuild
@@ -459,7 +459,7 @@ def _differential(job, n=4):
         args = list(job.args)
         args[i + 1] = str(base + k)
         try:
-            p = subprocess.run(['valgrind', '--tool=lackey', job.bin] + args, stdout=subprocess.PIPE, stderr=subprocess.PIPE,
+            p = subprocess.run(['valgrind', '--tool=lackey', job.bin] + args + ['--nodigest', '1'], stdout=subprocess.PIPE, stderr=subprocess.PIPE,
                                timeout=600, cwd=vbuild.HERE, stdin=subprocess.DEVNULL)
         except subprocess.TimeoutExpired:
             return False, 'lackey timeout'
@@ -564,7 +564,7 @@ def on_job_done(job, rc, out, err, res):
         res.dist('config', '%s/%s/%s' % (entry, impl, fl))
     res.dist('entry', entry)
     res.dist('paramset', '%s/%s' % (fl, ' '.join(job.args[:-2])))
-    if len(res.samples) < 12 and (hash(job.name) % 7 == 0 or lib):
+    if len(res.samples) < 12 and (zlib.crc32(job.name.encode()) % 23 == 0 or lib):
         res.sample(dict(entry=entry, impl=impl, flavour=fl, params=tag.get('params', {}), reports=len(lib),
                         allowlisted=len(lib) - sum(len(v) for v in seen.values())))
     res.jobs_ok += 1
